@@ -3,6 +3,8 @@
 package main
 
 import (
+	"path/filepath"
+	"os"
 	"sync"
 	"encoding/json"
 	"fmt"
@@ -393,6 +395,26 @@ func init() {
 			}
 			return r, err, true
 		}
+		// readFile on real files of every small size (also starting with a byte order mark): the text of the file, as it is
+		if dir, derr := os.MkdirTemp("", "verif-files-"); derr == nil {
+			contents := []string{"", "a", "a\n", "abc", "abcd", "\xef\xbb\xbf", "\xef\xbb\xbfx", "\xef\xbb", "\xff", "line one\nline two\n", strings.Repeat("x", 5000)}
+			for i, content := range contents {
+				path := filepath.Join(dir, fmt.Sprintf("f%d.txt", i))
+				if os.WriteFile(path, []byte(content), 0o600) != nil {
+					continue
+				}
+				r, err, ok := call("readFile", []any{path})
+				if ok && err == nil {
+					if got, isStr := r.(string); !isStr || got != content {
+						add("readFile", "returns-the-content", []any{fmt.Sprintf("<file of %d bytes>", len(content))}, fmt.Sprintf("file holds %q, readFile returned %q", content, r))
+					}
+				} else if ok && err != nil {
+					add("readFile", "reads-existing-file", []any{fmt.Sprintf("<file of %d bytes>", len(content))}, "readFile failed on an existing readable file: "+err.Error())
+				}
+			}
+			_, _, _ = call("readFile", []any{dir})
+			_ = os.RemoveAll(dir)
+		}
 		for _, fn := range names {
 			if fn == "readFile" || fn == "getEnvVar" {
 				for _, a := range genArgs(fn, funcs[fn].Parameters(), rng, 40) {
@@ -562,6 +584,39 @@ func init() {
 				}
 			}
 		}
+		// bindConstants over list types that carry size bounds: a list that satisfies the bounds of its own type gives a
+		// result that satisfies the derived result type
+		{
+			f := funcs["bindConstants"]
+			ptr := func(v int64) *int64 { return &v }
+			bounds := []struct{ min, max *int64 }{{nil, nil}, {ptr(1), nil}, {nil, ptr(5)}, {ptr(2), ptr(4)}, {ptr(0), ptr(1)}, {ptr(3), ptr(3)}}
+			for _, b := range bounds {
+				for n := 0; n <= 6; n++ {
+					if (b.min != nil && int64(n) < *b.min) || (b.max != nil && int64(n) > *b.max) {
+						continue
+					}
+					items := make([]any, n)
+					for i := range items {
+						items[i] = fmt.Sprintf("s%d", i)
+					}
+					listType := schema.NewListSchema(schema.NewStringSchema(nil, nil, nil), b.min, b.max)
+					r, err, p := safeCall(f, []any{items, "c"})
+					calls++
+					if p != nil || err != nil {
+						continue
+					}
+					ot, _, oerr := f.Output([]schema.Type{listType, schema.NewStringSchema(nil, nil, nil)})
+					if oerr != nil {
+						add("bindConstants", "output-type-error-bounded-list", []any{items, "c"}, "Output() failed for a bounded list type: "+oerr.Error())
+						continue
+					}
+					if _, uerr := ot.Unserialize(r); uerr != nil {
+						add("bindConstants", "result-not-of-declared-type-bounded-list", []any{items, "c"},
+							fmt.Sprintf("list of %d items with bounds (%v, %v): result is rejected by the derived result type: %v", n, deref(b.min), deref(b.max), uerr))
+					}
+				}
+			}
+		}
 		// ---- the same functions through the expression library (the path workflows use)
 		exprChecked := 0
 		for _, fn := range names {
@@ -681,4 +736,12 @@ func init() {
 		res.Extra = map[string]any{"violations": uniq, "calls": calls, "errors_returned": errsReturned, "per_function": perFn, "classes": len(classes),
 			"expression_evaluations": exprChecked, "concurrent_calls": concurrentCalls, "samples": samples, "functions": names}
 	}
+}
+
+
+func deref(p *int64) any {
+	if p == nil {
+		return nil
+	}
+	return *p
 }
